@@ -89,6 +89,8 @@ def roots(tier, seed):
                 case["tag"]["special"] = "huge-offset"
                 case["explore"] = 0
                 out.append(case)
+    from .. import cover
+    out += cover.roots_for(tier)
     return alpha.permute(out, seed)
 
 
